@@ -135,6 +135,16 @@ def contains(I, cont, x):
         raise Unsupported("'in' on a Dyn value in a specification (use as_dict/as_list/as_str)")
     if isinstance(cont, VEmptySet):
         return z3.BoolVal(False)
+    if getattr(cont, "pyconstset", False):
+        # membership in a set hashes x first: lists / dicts / sets are unhashable -> TypeError
+        if isinstance(x, VDyn):
+            if not I.spec:
+                I.require_defined(z3.Not(z3.Or(D.is_list(x.e), D.is_dict(x.e))), "TypeError", "unhashable type")
+        elif isinstance(x, (VSeq, VMap, VSet, VDictRec, VEmptyList, VEmptySet)):
+            if I.spec:
+                return z3.BoolVal(False)
+            I.raise_exc("TypeError", "unhashable type")
+        return z3.Or([I.eq(x, c) for c in cont.items] + [z3.BoolVal(False)])
     if isinstance(cont, VDRec):
         c = const_of(x) if isinstance(x, VStr) else _NOCONST
         if isinstance(c, str):
@@ -1598,6 +1608,8 @@ def bi_set(I, args, kw):
     if not args:
         return VEmptySet()
     v = I.force(args[0])
+    if getattr(v, "pyconstset", False):
+        return v
     if isinstance(v, VSet):
         return VSet(v.dom, v.card, v.kt)
     js = jsontree.to_set(I, v)
@@ -2070,7 +2082,7 @@ BUILTIN_FUNCS.update(jsontree.SPEC_FUNCS)
 from . import ext_listing as _ext_listing
 BUILTIN_FUNCS.update(_ext_listing.SPEC_FUNCS)
 BUILTIN_TYPES = {"int": bi_int, "float": bi_float, "bool": bi_bool, "str": bi_str, "list": bi_list,
-                 "tuple": bi_tuple, "dict": bi_dict, "set": bi_set, "object": bi_object, "deque": bi_deque,
+                 "tuple": bi_tuple, "dict": bi_dict, "set": bi_set, "frozenset": bi_set, "object": bi_object, "deque": bi_deque,
                  "OrderedDict": bi_ordereddict}
 TYPE_NAMES = {"int", "float", "bool", "str", "list", "tuple", "dict", "set", "object", "NoneType", "bytes",
               "Mapping", "MutableMapping", "Sequence", "deque", "OrderedDict", "frozenset"}
